@@ -25,8 +25,9 @@ theorem sv_setFirst (c : Cfg) : Cfg.sv { c with A := { c.A with firstScheduled :
 theorem sstep_act_enq {cls : Cls} {prio : Int} {src : Src} {sid : Nat}
     (hc : c.code = .act (.enq cls prio src sid) :: rest) : StepOK P c := by
   unfold StepOK step; simp only [hc, doAct]
-  refine ⟨SStep.batch' (v := c.sv) hc (.actSilent rfl) ?_, grow_enqueue _ (grow0 c rest)⟩
-  simp only [outCfg_ok, sv_enqueue]; rfl
+  refine ⟨?_, grow_enqueue _ (grow0 c rest)⟩
+  simp only [outCfg_ok, sv_enqueue]
+  exact SStep.enqAct (v := c.sv) hc
 
 theorem sstep_act_regSource {src : Src} (hc : c.code = .act (.regSource src) :: rest) : StepOK P c := by
   unfold StepOK step; simp only [hc, doAct]
@@ -308,12 +309,12 @@ theorem sstep_procIter {p : Option Int} (hc : c.code = .procIter p :: rest) : St
       cases p with
       | none =>
         refine ⟨SStep.batch' (v := c.sv) hc (.procTake none e.2.2 e.2.2.prio hr') ?_, ⟨[_], rfl⟩⟩
-        simp [Cfg.sv, listSet, shapeTr_cons, Tr.shape, push]
+        simp [Cfg.sv, listSet, shapeTr_cons, Tr.shape, push, cleanTr_cons, Tr.isExc]
       | some pr =>
         dsimp only
         split
         · refine ⟨SStep.batch' (v := c.sv) hc (.procTake (some pr) e.2.2 pr hr') ?_, ⟨[_], rfl⟩⟩
-          simp [Cfg.sv, listSet, shapeTr_cons, Tr.shape, push]
+          simp [Cfg.sv, listSet, shapeTr_cons, Tr.shape, push, cleanTr_cons, Tr.isExc]
         · exact ⟨SStep.batch' (v := c.sv) hc (.procEnd (some pr)) rfl, ⟨[_, _], rfl⟩⟩
 
 /-! ### nested loops -/
@@ -325,18 +326,22 @@ theorem sstep_newLoop {s : Sig} (hc : c.code = .newLoop s :: rest) : StepOK P c 
   · rename_i hf
     refine ⟨?_, grow_push _ (grow_enqueue _ ⟨[_], rfl⟩)⟩
     simp only [outCfg_ok, sv_push, sv_enqueue]
-    have := SStep.open (P := P) (v := c.sv) (s := s) hc (bfalse hf)
-    simpa [Cfg.sv, Cfg.trace, shapeTr_cons, Tr.shape] using this
+    rw [sv_trace_shape _ _ rfl]
+    have h := SStep.open (P := P) (v := c.sv) (s := s) hc (bfalse hf)
+    refine (congrArg (SStep P c.sv) ?_).mp h
+    simp [Cfg.sv, SV.noteExc]
 
 /-- `execute_new_loop`, not force-quit: the step itself -/
 theorem step_newLoop {s : Sig} (hc : c.code = .newLoop s :: rest) (hf : c.L.forceQuit = false) :
     ∃ c1, step P c = .ok c1 ∧
-      c1.sv = { c.sv with code := .mainCheck c.sv.nq :: rest, levels := c.sv.levels ++ [c.sv.nq], active := c.sv.nq,
-                          nq := c.sv.nq + 1, ev := .openLevel c.sv.nq c.sv.runLoop :: c.sv.ev } := by
+      c1.sv = SV.noteExc { c.sv with code := .mainCheck c.sv.nq :: rest, levels := c.sv.levels ++ [c.sv.nq],
+                                     active := c.sv.nq, nq := c.sv.nq + 1,
+                                     ev := .openLevel c.sv.nq c.sv.runLoop :: c.sv.ev } (s.cls == .exception) := by
   unfold step; simp only [hc, hf]
   refine ⟨_, rfl, ?_⟩
   simp only [sv_push, sv_enqueue]
-  simp [Cfg.sv, Cfg.trace, shapeTr_cons, Tr.shape, hf]
+  rw [sv_trace_shape _ _ rfl]
+  simp [Cfg.sv, SV.noteExc, hf]
 
 /-- the end of `execute_new_loop` / `run`: `_run_loop` is set again -/
 theorem step_restoreRun (hc : c.code = .restoreRun :: rest) (hf : c.L.forceQuit = false) :
@@ -438,7 +443,7 @@ theorem sstep_afterSetupFail {e : Entry} (hc : c.code = .afterSetupFail e :: res
 theorem sstep_afterSetup2 {top : Entry} (hc : c.code = .afterSetup2 top :: rest) : StepOK P c := by
   unfold StepOK step; simp only [hc]
   refine ⟨SStep.batch' (v := c.sv) hc (.afterSetup2 top) ?_, ⟨[_], rfl⟩⟩
-  simp [Cfg.sv, listSet, shapeTr_cons, Tr.shape, push, Cfg.trace]
+  simp [Cfg.sv, listSet, shapeTr_cons, Tr.shape, push, Cfg.trace, cleanTr_cons, Tr.isExc]
 
 theorem notCatchPS_eq : (fun i : Instr => match i with | .catchPS => false | _ => true) = notCatchPS := by
   funext i; cases i <;> rfl
